@@ -844,6 +844,21 @@ func c20(c *core.Ctx, r *core.Report) {
 			x.free = append(x.free, ownShared)
 		}
 		a.analyze(x, 0)
+		// a helper that owns the fan-out runs a function it was handed inside each goroutine: what the callers hand
+		// over is part of the goroutine's work, with the arguments the goroutine body gives it
+		for _, ps := range helperPayloads(c, g.g) {
+			nx := &ownCtx{fn: ps.payload}
+			for _, arg := range ps.call.Common().Args {
+				nx.params = append(nx.params, a.classOf(x, arg, 0))
+			}
+			for len(nx.params) < len(ps.payload.Params) {
+				nx.params = append(nx.params, ownShared)
+			}
+			for range ps.payload.FreeVars {
+				nx.free = append(nx.free, ownShared) // what the caller's literal captures is shared by all goroutines
+			}
+			a.analyze(nx, 0)
+		}
 		byClass := map[string]int{}
 		nbad := 0
 		for _, w := range a.writes {
@@ -879,6 +894,11 @@ func c20(c *core.Ctx, r *core.Report) {
 		for _, ci := range core.Calls(g.fn) {
 			if core.IsExtCall(ci.Common(), "(*sync.WaitGroup).Wait") {
 				wait = ci
+			}
+		}
+		if wait == nil {
+			if j, ok := fanJoined.Load(g.g); ok {
+				wait = j.(ssa.Instruction) // joined by tokens: the first instruction after the receiving loop
 			}
 		}
 		if mc, ok := g.g.Call.Value.(*ssa.MakeClosure); ok && wait != nil {
